@@ -319,6 +319,15 @@ def callerStep (ch : Choreo) (s : St) (i : Nat) (arm : Nat) : Option St :=
       | none => some (setCaller s i (.fin (.ab cause) .ok))
       | some op => (execOp ch s cause op).map fun s' => setCaller s' i (.ab cause (k+1))
 
+/-- the first program point of a call; a read on a stream whose error is already set does not wait -/
+def startCaller (s : St) : Kind → Caller
+  | .rd sid => .rdWait sid (s.unreg || s.gone.contains sid)
+  | .wr => .wrBegin
+  | .acc => .accWait
+  | .sh => .shBegin
+  | .cl => .cl 0
+  | .ab cause => .ab cause 0
+
 def step (ch : Choreo) (s : St) : Act → Option St
   -- environment ------------------------------------------------------------------------------------
   | .envPacket p =>
@@ -332,15 +341,7 @@ def step (ch : Choreo) (s : St) : Act → Option St
   | .envStart i =>
     if s.hsDone && s.fuel > 0 then
       match s.callers[i]? with
-      | some (.idle k) =>
-        let c : Caller := match k with
-          | .rd sid => .rdWait sid (s.unreg || s.gone.contains sid)
-          | .wr => .wrBegin
-          | .acc => .accWait
-          | .sh => .shBegin
-          | .cl => .cl 0
-          | .ab cause => .ab cause 0
-        some (setCaller { s with fuel := s.fuel - 1 } i c)
+      | some (.idle k) => some (setCaller { s with fuel := s.fuel - 1 } i (startCaller s k))
       | _ => none
     else none
   | .envServe i =>
